@@ -21,7 +21,7 @@ const Prelude = `(set-option :produce-models true)
 (declare-sort Str 0)
 (declare-fun len (Str) Int)
 (declare-fun at (Str Int) Int)
-(assert (forall ((s Str)) (! (and (>= (len s) 0) (<= (len s) 9223372036854775807)) :pattern ((len s)))))
+(assert (forall ((s Str)) (! (>= (len s) 0) :pattern ((len s)))))
 (assert (forall ((s Str) (i Int)) (! (and (<= 0 (at s i)) (<= (at s i) 255)) :pattern ((at s i)))))
 (declare-fun streq (Str Str) Bool)
 (declare-fun strdiff (Str Str) Int)
@@ -51,6 +51,10 @@ const Prelude = `(set-option :produce-models true)
 ; idx(off, i) = off + i, kept as a function symbol so that quantifier patterns over slice elements match structurally
 (declare-fun idx (Int Int) Int)
 (assert (forall ((a Int) (b Int)) (! (= (idx a b) (+ a b)) :pattern ((idx a b)))))
+; bytesToStr(a, off, n): the byte sequence a[off .. off+n) as a Str (spec-level view of a []byte)
+(declare-fun bytesToStr ((Array Int Int) Int Int) Str)
+(assert (forall ((a (Array Int Int)) (o Int) (n Int)) (! (=> (>= n 0) (= (len (bytesToStr a o n)) n)) :pattern ((bytesToStr a o n)))))
+(assert (forall ((a (Array Int Int)) (o Int) (n Int) (i Int)) (! (=> (and (<= 0 i) (< i n)) (= (at (bytesToStr a o n) i) (select a (idx o i)))) :pattern ((at (bytesToStr a o n) i)))))
 ; ---- interfaces -----------------------------------------------------------------
 (declare-sort Iface 0)
 (declare-fun typeOf (Iface) Int)
@@ -79,11 +83,21 @@ type solverSpec struct {
 	args func(file string, timeoutS int) []string
 }
 
+// Seed offsets the random seeds of the z3 instances (VERIF_SEED).
+var Seed = 0
+
+func z3seed(n int) solverSpec {
+	return solverSpec{fmt.Sprintf("z3-new/seed%d", n), func(f string, t int) []string {
+		return []string{"z3-new", fmt.Sprintf("-T:%d", t), fmt.Sprintf("smt.random_seed=%d", Seed+n), f}
+	}}
+}
+
 var solvers = []solverSpec{
 	{"z3-new", func(f string, t int) []string { return []string{"z3-new", fmt.Sprintf("-T:%d", t), f} }},
 	{"cvc5", func(f string, t int) []string {
 		return []string{"cvc5", "--enum-inst", fmt.Sprintf("--tlimit=%d", t*1000), f}
 	}},
+	z3seed(1), z3seed(2), z3seed(3),
 	{"z3", func(f string, t int) []string { return []string{"z3", fmt.Sprintf("-T:%d", t), f} }},
 }
 
@@ -143,7 +157,9 @@ func Solve(query string, dir string, name string, timeoutS int, all bool) Result
 	var wg sync.WaitGroup
 	use := solvers
 	if !all {
-		use = solvers[:2] // quick tier: z3 5.1 and cvc5; z3 4.8.12 joins in the thorough tier
+		// quick tier: cvc5 and z3 5.1 under three more seeds (slow queries are the seed-sensitive ones);
+		// z3 4.8.12 joins in the thorough tier, where all answers are cross-checked
+		use = solvers[1:5]
 	}
 	for _, sp := range use {
 		wg.Add(1)
